@@ -17,12 +17,13 @@ Context {W H : Type} (rt : runtime W H).
 (* try: os.makedirs(path, mode)
    except OSError as exc:
        if exc.errno == errno.EEXIST: (if not os.path.isdir(path): raise)  else: raise
-   — os.path.isdir is evaluated in the world makedirs left behind *)
+   — os.path.isdir is evaluated in the world makedirs left behind; the handler reads the
+   errno attribute only: the class of the OSError instance plays no role *)
 Definition ensure_tree (path : bytes) (mode : Z) (w : W) : W * ores unit :=
   match rt_makedirs rt path mode w with
   | (w1, OOk _) => (w1, OOk tt)
   | (w1, OErr e) =>
-      if (e =? errno_EEXIST) && rt_isdir rt path w1 then (w1, OOk tt) else (w1, OErr e)
+      if (os_errno e =? errno_EEXIST) && rt_isdir rt path w1 then (w1, OOk tt) else (w1, OErr e)
   | (w1, OExn x) => (w1, OExn x)
   end.
 
@@ -31,7 +32,7 @@ Definition delete_if_exists (path : bytes) (remove : bytes -> W -> W * ores unit
   : W * ores unit :=
   match remove path w with
   | (w1, OOk _) => (w1, OOk tt)
-  | (w1, OErr e) => if e =? errno_ENOENT then (w1, OOk tt) else (w1, OErr e)
+  | (w1, OErr e) => if os_errno e =? errno_ENOENT then (w1, OOk tt) else (w1, OErr e)
   | (w1, OExn x) => (w1, OExn x)
   end.
 
@@ -170,7 +171,7 @@ Definition last_bytes (path : bytes) (num : Z) (w : W) : ores (bytes * Z) :=
       match fseek (fopen data) (- num) os_SEEK_END with
       | (fp, OOk _) => tell_and_read fp
       | (fp, OErr e) =>
-          if e =? errno_EINVAL then
+          if os_errno e =? errno_EINVAL then
             match fseek fp 0 os_SEEK_SET with
             | (fp2, OOk _) => tell_and_read fp2
             | (_, OErr e2) => OErr e2
